@@ -1,57 +1,72 @@
 (** No call of a well-formed single-pool history diverges: the fuel of the worker loop, of the
     scheduling pass and of the stop loop is never exhausted. *)
 From OCV Require Import Base.Prelude Misc.Time Queue.PMap Queue.OWS Coroutine.Co Coroutine.CoOracle Sched.Sched Sched.Pool Sched.PoolOracle.
-From OCV Require Import Sched.PoolBase Sched.PoolWf Sched.PoolJ Sched.PoolJLemmas Sched.PoolCanon Sched.PoolJSched Sched.PoolJOps Sched.PoolJOps2 Sched.PoolRun Sched.PoolProofs Sched.PoolInv.
+From OCV Require Import Sched.PoolBase Sched.PoolWf Sched.PoolJ Sched.PoolJLemmas Sched.PoolCanon Sched.PoolMeasure Sched.PoolJSched Sched.PoolJOps Sched.PoolJOps2 Sched.PoolRun Sched.PoolProofs Sched.PoolInv.
 From Coq Require Import ZifyBool ZifyNat.
 Open Scope Z_scope.
 
-(** the timeout of every stop fits a u64 (the loop of [do_stop] is given [dur / 1ms + 2] rounds) *)
+(** the clock stays below [u64::MAX] after every operation. Needed only with a keep-alive: an idle
+    worker whose keep-alive is pending when the (saturating) clock reaches the end of time naps for
+    ever, in the code as in the model. Checked along the model's run, like the [PClock] check. *)
+Fixpoint clocks_low (x : pw) (ops : list pop) : bool :=
+  match ops with
+  | [] => true
+  | o :: r => (pw_clock (fst (pstep x o)) <? U64MAX) && clocks_low (fst (pstep x o)) r
+  end.
+
+Definition naps_low (clock : Z) (cfg : Z * Z * Z) (ops : list pop) : bool :=
+  (snd cfg <=? 0) || clocks_low (pw0 clock [cfg]) ops.
+
+(** (the bound on the stop timeouts that an earlier version needed is implied by [0 <= clock]) *)
 Definition durs_ok (ops : list pop) : bool :=
   forallb (fun o => match o with PStop _ dur => dur <=? U64MAX | _ => true end) ops.
 
-Definition wf_pool1t (clock : Z) (cfg : Z * Z * Z) (ops : list pop) : bool := wf_pool1 clock cfg ops && durs_ok ops.
+Definition wf_pool1t (clock : Z) (cfg : Z * Z * Z) (ops : list pop) : bool := wf_pool1 clock cfg ops && naps_low clock cfg ops.
 
-Lemma op_nodiv mx tnt x t o :
-  Jop mx tnt x t -> op_ok x o = true -> (match o with PStop _ dur => dur <=? U64MAX | _ => true end) = true ->
-  is_div (snd (pstep x o)) = false.
+Lemma op_nodiv mx kp tnt x t o :
+  Jop mx kp tnt x t -> op_ok x o = true -> low kp (fst (pstep x o)) -> is_div (snd (pstep x o)) = false.
 Proof.
-  intros HJ Hok Hd. destruct o as [p body prio|p dl|p i|p i|p i|i|p dur|p|p|p|c]; cbn [op_ok] in Hok;
+  intros HJ Hok Hlow. destruct o as [p body prio|p dl|p i|p i|p i|i|p dur|p|p|p|c]; cbn [op_ok] in Hok;
     try (apply andb_true_iff in Hok as [Hp Hok]); try (apply Nat.eqb_eq in Hp; subst p); try (apply Nat.eqb_eq in Hok; subst p).
   - cbn [pstep]. destruct (p_state (get_pool x 0)); reflexivity.
-  - cbn [pstep]. destruct HJ as [HJ Hts].
-    pose proof (ppass_J mx tnt x (unquiet t) dl (conj (J_unquiet mx tnt x _ None t HJ) Hts) (unquiet_quiet_off t)) as H.
-    destruct (ppass x 0 dl) as [[x' r] e]. cbn [snd ppass_ok] in *. destruct r; try contradiction; reflexivity.
+  - cbn [pstep] in *. destruct HJ as [HJ Hts].
+    pose proof (ppass_J mx kp tnt x (unquiet t) dl (conj (J_unquiet mx kp tnt x _ None t HJ) Hts) (unquiet_quiet_off t)) as H.
+    destruct (ppass x 0 dl) as [[x' r] e]. cbn [fst snd ppass_ok] in *. destruct r; try contradiction; try reflexivity.
+    destruct H as [Hn _]. contradiction.
   - cbn [pstep]. destruct (pwait x 0 i) as [x' r]. reflexivity.
   - cbn [pstep]. destruct (take x 0 i) as [x' [r|]]; reflexivity.
   - reflexivity.
   - reflexivity.
-  - apply (op_stop_nodiv mx tnt x t dur HJ). lia.
+  - apply (op_stop_nodiv mx kp tnt x t dur HJ Hlow).
   - reflexivity.
   - reflexivity.
   - reflexivity.
   - reflexivity.
 Qed.
 
-Lemma run_nodiv mx : forall ops x t tnt,
-  Jop mx tnt x t -> hist_okp x ops = true -> durs_ok ops = true -> nodiv x ops = true.
+Lemma run_nodiv mx kp : forall ops x t tnt,
+  Jop mx kp tnt x t -> hist_okp x ops = true -> (kp <= 0 \/ clocks_low x ops = true) -> nodiv x ops = true.
 Proof.
   induction ops as [|o r IH]; intros x t tnt HJ Hok Hd; [reflexivity|].
   cbn [hist_okp] in Hok. apply andb_true_iff in Hok as [Hok1 Hok2].
-  unfold durs_ok in Hd. cbn [forallb] in Hd. apply andb_true_iff in Hd as [Hd1 Hd2].
+  assert (low kp (fst (pstep x o)) /\ (kp <= 0 \/ clocks_low (fst (pstep x o)) r = true)) as [Hlow Hd2].
+  { destruct Hd as [Hd|Hd]; [split; left; exact Hd|]. cbn [clocks_low] in Hd. apply andb_true_iff in Hd as [H1 H2].
+    split; right; [lia | exact H2]. }
   unfold nodiv. rewrite prun_cons. cbn [forallb].
-  pose proof (op_nodiv mx tnt x t o HJ Hok1 Hd1) as Hnd. rewrite Hnd. cbn [negb andb].
-  pose proof (op_step mx tnt x t o HJ Hok1) as Hstep. cbv zeta in Hstep. rewrite Hnd in Hstep.
+  pose proof (op_nodiv mx kp tnt x t o HJ Hok1 Hlow) as Hnd. rewrite Hnd. cbn [negb andb].
+  pose proof (op_step mx kp tnt x t o HJ Hok1) as Hstep. cbv zeta in Hstep. rewrite Hnd in Hstep.
   apply (IH _ _ _ Hstep Hok2 Hd2).
 Qed.
 
-Lemma wft_split clock cfg ops : wf_pool1t clock cfg ops = true -> wf_pool1 clock cfg ops = true /\ durs_ok ops = true.
+Lemma wft_split clock cfg ops : wf_pool1t clock cfg ops = true -> wf_pool1 clock cfg ops = true /\ naps_low clock cfg ops = true.
 Proof. unfold wf_pool1t. intro H. apply andb_true_iff in H. exact H. Qed.
 
 (** the model's run of a well-formed history never diverges *)
 Theorem nodiv_model1 : forall clock cfg ops, wf_pool1t clock cfg ops = true -> nodiv (pw0 clock [cfg]) ops = true.
 Proof.
   intros clock cfg ops H. destruct (wft_split _ _ _ H) as [Hwf Hd]. destruct (wf_split _ _ _ Hwf) as [Hc Hh].
-  apply (run_nodiv (snd (fst cfg)) ops _ _ false (Jop_init clock cfg Hc) Hh Hd).
+  apply (run_nodiv (snd (fst cfg)) (snd cfg) ops _ _ false (Jop_init clock cfg Hc) Hh).
+  unfold naps_low in Hd. apply orb_true_iff in Hd as [Hd|Hd]; [left; lia | right; exact Hd].
 Qed.
 
 (** P5 *)
